@@ -32,6 +32,7 @@ pub fn generate(prop: &str, tier: &str, seed: u64, outdir: &str) {
     let thorough = tier == "thorough";
     match prop {
         "C17" => gen_c17(&mut out, &mut rng, thorough),
+        "C18" => gen_c18(&mut out, &mut rng, thorough),
         _ => {
             eprintln!("no generator for {prop}");
             std::process::exit(2);
@@ -133,5 +134,75 @@ fn gen_c17(out: &mut Out, rng: &mut Rng, thorough: bool) {
             }
         };
         out.req("tag_random", format!("lang_from_tag_rt {}", hex_of_str(&s)));
+    }
+}
+
+// ------------------------------------------------------------------------------------
+// C18
+
+pub const EPOCH_TICKS: i128 = 116_444_736_000_000_000;
+
+fn ts_req(out: &mut Out, kind: &str, cmd: &str, ns: i128) {
+    // ns from the Unix epoch -> (secs, nanos) with floor division; clamp to the i64 range
+    let secs = ns.div_euclid(1_000_000_000);
+    let nanos = ns.rem_euclid(1_000_000_000);
+    if secs < i64::MIN as i128 || secs > i64::MAX as i128 {
+        return;
+    }
+    out.req(kind, format!("{cmd} {secs} {nanos}"));
+}
+
+fn gen_c18(out: &mut Out, rng: &mut Rng, thorough: bool) {
+    let min_ns: i128 = -EPOCH_TICKS * 100;
+    let max_ns: i128 = (u64::MAX as i128 - EPOCH_TICKS) * 100;
+    // every tick boundary near 1601-01-01, 1970-01-01, the tick maximum: sub-tick nanos 0..199, both sides
+    for base in [min_ns, 0, max_ns, -100, 100, max_ns - 1_000_000_000, min_ns + 1_000_000_000] {
+        for d in -250i128..=250 {
+            ts_req(out, "boundary", "ts_rt", base + d);
+        }
+    }
+    // whole-second boundaries around the epoch (the seconds/nanos split of negative times)
+    for s in -3i128..=3 {
+        for d in [-101i128, -100, -99, -1, 0, 1, 99, 100, 101] {
+            ts_req(out, "second_boundary", "ts_rt", s * 1_000_000_000 + d);
+        }
+    }
+    // extremes of the platform's SystemTime (i64 seconds)
+    for (secs, nanos) in [
+        (i64::MIN, 0u32), (i64::MIN, 1), (i64::MIN, 999_999_999), (i64::MIN + 1, 0),
+        (i64::MAX, 0), (i64::MAX, 999_999_999), (i64::MAX - 1, 5),
+    ] {
+        out.req("extreme", format!("ts_rt {secs} {nanos}"));
+    }
+    // random times: inside the representable range (most), and anywhere in the i64 range
+    let n = if thorough { 10_000_000 } else { 200_000 };
+    for i in 0..n {
+        let ns: i128 = match i % 10 {
+            0 => {
+                let secs = rng.next() as i64;
+                secs as i128 * 1_000_000_000 + rng.below(1_000_000_000) as i128
+            }
+            1 => rng.range(-4_000_000_000, 4_000_000_000) as i128, // within 4 s of the epoch
+            _ => {
+                // uniform tick in the representable range plus sub-tick nanos
+                let tick = rng.next() as i128;
+                (tick - EPOCH_TICKS) * 100 + rng.below(100) as i128
+            }
+        };
+        ts_req(out, "random", "ts_rt", ns);
+    }
+    // through save / reopen
+    let m = if thorough { 20_000 } else { 1_000 };
+    for i in 0..m {
+        let ns: i128 = match i % 8 {
+            0 => min_ns + rng.range(-300, 300) as i128,
+            1 => rng.range(-300, 300) as i128,
+            2 => max_ns + rng.range(-300, 300) as i128,
+            _ => {
+                let tick = rng.next() as i128;
+                (tick - EPOCH_TICKS) * 100 + rng.below(100) as i128
+            }
+        };
+        ts_req(out, "save_reopen", "ts_save", ns);
     }
 }
